@@ -7,6 +7,7 @@ import (
 	"go/types"
 	"hash/fnv"
 	"os"
+	"regexp"
 	"sort"
 	"strconv"
 	"strings"
@@ -45,6 +46,18 @@ type Event struct {
 	Base  string   // store: term of the struct the field belongs to
 	Args  []string // call: terms of the arguments
 	Instr ssa.Instruction
+	At    token.Pos // optional: where to report (the outermost call site when the instruction sits in a helper walked in place)
+}
+
+// outerPos is the position of the outermost call through which the enumeration reached `in` (in itself when it is in
+// the function the enumeration started in).
+func outerPos(ps *pathState, in ssa.Instruction) token.Pos {
+	for _, fr := range ps.Stack {
+		if fr.call != nil && fr.call.Pos().IsValid() {
+			return fr.call.Pos()
+		}
+	}
+	return in.Pos()
 }
 
 type LPath struct {
@@ -166,6 +179,9 @@ func (t *Termer) term(v ssa.Value, ps *pathState) string {
 	case *ssa.Const:
 		return "const:" + constString2(x)
 	case *ssa.Parameter:
+		if s, ok := t.extraParamTerm(x); ok {
+			return s
+		}
 		return "p:" + x.Name()
 	case *ssa.FreeVar:
 		if ps != nil {
@@ -177,6 +193,18 @@ func (t *Termer) term(v ssa.Value, ps *pathState) string {
 	case *ssa.Global:
 		return "g:" + x.Name()
 	case *ssa.Convert:
+		// an integer conversion that can change the value (narrowing, or a change of signedness at the same width) is
+		// part of the term: `start > uint16(maxLen)` is not `start > maxLen`
+		if lossyIntConv(x) {
+			if ps != nil {
+				if n, ok := evalInt(x.X, ps); ok {
+					if lo, hi, ok := intRange(x.Type()); ok && n >= lo && n <= hi {
+						return fmt.Sprintf("const:%d", n)
+					}
+				}
+			}
+			return "conv:" + types.TypeString(x.Type(), shortQual) + "(" + t.Term(x.X, ps) + ")"
+		}
 		return t.Term(x.X, ps)
 	case *ssa.ChangeType:
 		return t.Term(x.X, ps)
@@ -188,9 +216,15 @@ func (t *Termer) term(v ssa.Value, ps *pathState) string {
 		// a range-value copy (`for _, k := range key`) is named after the element it copies
 		if st := singleStore(x); st != nil {
 			// the spill cell of a parameter of an inlined helper (value receivers are spilled) is the bound argument
-			if prm, ok := st.Val.(*ssa.Parameter); ok && ps != nil {
-				if b, ok := ps.Bind[prm]; ok {
-					return t.Term(b, ps)
+			if prm, ok := st.Val.(*ssa.Parameter); ok {
+				if ps != nil {
+					if b, ok := ps.Bind[prm]; ok {
+						return t.Term(b, ps)
+					}
+				}
+				// the spill cell of a parameter (value receivers and parameters whose address is taken) is the parameter
+				if st.Block() == x.Parent().Blocks[0] {
+					return "p:" + prm.Name()
 				}
 			}
 			// a local holding the struct an inlined helper returned is named after what the helper returned
@@ -269,6 +303,16 @@ func (t *Termer) term(v ssa.Value, ps *pathState) string {
 			}
 			return b.Name() + "(" + strings.Join(args, ",") + ")"
 		}
+		if rv, bind, ok := pureHelperResult(x); ok && ps != nil && t.depth < 50 {
+			ps2 := ps.clone()
+			if ps2.Bind == nil {
+				ps2.Bind = map[*ssa.Parameter]ssa.Value{}
+			}
+			for k, v := range bind {
+				ps2.Bind[k] = ps.Resolve(v)
+			}
+			return t.term(rv, ps2)
+		}
 		name := calleeName(t.P, x)
 		nameOf := func(c2 *ssa.Call) string { return calleeName(t.P, c2) }
 		if m, _ := devirt(t.P, x, ps); m != nil {
@@ -320,6 +364,20 @@ func (t *Termer) term(v ssa.Value, ps *pathState) string {
 
 func shortQual(p *types.Package) string { return p.Name() }
 
+var reConvTerm = regexp.MustCompile(`^conv:[A-Za-z0-9_.]+\((.*)\)$`)
+
+// unconvTerm strips the value-changing integer conversions a term is wrapped in (for rules that ask where a value comes
+// from, not what it is).
+func unconvTerm(s string) string {
+	for {
+		m := reConvTerm.FindStringSubmatch(s)
+		if m == nil {
+			return s
+		}
+		s = m[1]
+	}
+}
+
 func constString2(c *ssa.Const) string {
 	if c.Value == nil {
 		return "nil"
@@ -369,12 +427,25 @@ func (t *Termer) litOf(cond ssa.Value, outcome bool, ps *pathState) (Lit, bool) 
 			}
 			if oky {
 				l := Lit{Subject: t.Term(X, ps), Op: op, C: constString2(cy), Val: outcome, Cond: cond}
+				if cy.Value == nil {
+					// the zero value of an array (go/ssa folds a never-written `var unused [20]byte` into it): all zero
+					if _, isArr := cy.Type().Underlying().(*types.Array); isArr {
+						l.C, l.IsInt, l.N = "0", true, 0
+					}
+				}
 				if cy.Value != nil && cy.Value.Kind() == constant.Int {
 					if n, ok := constant.Int64Val(cy.Value); ok {
 						l.IsInt, l.N = true, n
 					}
 				}
 				return l, true
+			}
+			// compared with a zero-valued local array (`var unused [20]byte; if x != unused`): all elements zero
+			if (op == token.EQL || op == token.NEQ) && isZeroArrayLoad(Y) {
+				return Lit{Subject: t.Term(X, ps), Op: op, C: "0", Val: outcome, IsInt: true, N: 0, Cond: cond}, true
+			}
+			if (op == token.EQL || op == token.NEQ) && isZeroArrayLoad(X) {
+				return Lit{Subject: t.Term(Y, ps), Op: op, C: "0", Val: outcome, IsInt: true, N: 0, Cond: cond}, true
 			}
 			// term vs term: difference against zero
 			return Lit{Subject: t.Term(X, ps) + "−" + t.Term(Y, ps), Op: op, C: "0", Val: outcome, IsInt: true, N: 0, Cond: cond}, true
@@ -383,6 +454,18 @@ func (t *Termer) litOf(cond ssa.Value, outcome bool, ps *pathState) (Lit, bool) 
 		// v, ok := x.(T)
 		if ta, ok := x.Tuple.(*ssa.TypeAssert); ok && ta.CommaOk && x.Index == 1 {
 			return Lit{Subject: "type(" + t.Term(ta.X, ps) + ")", Op: token.EQL, C: types.TypeString(ta.AssertedType, shortQual), Val: outcome, Cond: cond}, true
+		}
+	}
+	// bytes.Equal(x[:], []byte("literal")) is the comparison string(x[:]) == "literal"
+	if call, ok := cond.(*ssa.Call); ok {
+		if cal := call.Call.StaticCallee(); cal != nil && isLibFunc(cal, "bytes", "Equal") && len(call.Call.Args) == 2 {
+			for k := 0; k < 2; k++ {
+				if cv, ok := ps.Resolve(call.Call.Args[k]).(*ssa.Convert); ok {
+					if cst, ok := cv.X.(*ssa.Const); ok && cst.Value != nil && cst.Value.Kind() == constant.String {
+						return Lit{Subject: t.Term(call.Call.Args[1-k], ps), Op: token.EQL, C: constString2(cst), Val: outcome, Cond: cond}, true
+					}
+				}
+			}
 		}
 	}
 	// a boolean term used directly
@@ -525,6 +608,9 @@ type TabOpts struct {
 // on (a freshly extracted helper). Calls to such functions are transparent to the path enumeration: the callee's
 // blocks are walked in place with its parameters bound to the arguments.
 var inlinable func(fn *ssa.Function) bool
+
+// theProgram: the loaded program (for value-level helpers that have no Program at hand: constant tables in evalInt).
+var theProgram *Program
 
 const maxInlineDepth = 4
 
@@ -806,6 +892,23 @@ func EnumLits(start *ssa.BasicBlock, idx int, o TabOpts) ([]*LPath, bool) {
 								if fb != outcome {
 									continue
 								}
+							} else if alts, ok := boolEqAlts(v, outcome, ps); ok {
+								// `return a == b` over two booleans: each outcome in its two ways
+								for _, alt := range alts {
+									nl, good := o.Termer.altLits(alt, fr.lits, ps)
+									if !good || !satisfiable(append(append([]Lit(nil), nl...), o.Assume...)) {
+										continue
+									}
+									afr := fr
+									afr.lits = nl
+									nps := ps.clone()
+									if nps.Over == nil {
+										nps.Over = map[ssa.Value]ssa.Value{}
+									}
+									nps.Over[v] = ssa.NewConst(constant.MakeBool(outcome), types.Typ[types.Bool])
+									walk(b, i, nps, afr, false)
+								}
+								continue
 							} else if l, ok := o.Termer.litOf(v, outcome, ps); ok {
 								l.PS = ps
 								nl := append(append([]Lit(nil), fr.lits...), l)
@@ -840,10 +943,18 @@ func EnumLits(start *ssa.BasicBlock, idx int, o TabOpts) ([]*LPath, bool) {
 		}
 		for k, s := range b.Succs {
 			visits := ps.Visits[s]
-			if visits >= 2 {
+			// a counted loop inside a helper that is walked in place, whose counters are all known numbers when the
+			// back-edge is taken (`for _, a := range [...]string{"ROWID", "OID", "_ROWID_"}`), is walked iteration by
+			// iteration with the numbers, not as "some later iteration"
+			var cvals map[ssa.Value]int64
+			if visits >= 1 && len(ps.Stack) > 0 && s.Dominates(b) && visits < maxConcreteIter {
+				cvals = concreteBackEdge(s, b, ps)
+			}
+			if visits >= 2 && cvals == nil {
 				continue
 			}
 			nfr := fr
+			var altFrames []frame
 			if cond != nil {
 				outcome := k == 0
 				rc := ps.Resolve(cond)
@@ -853,6 +964,20 @@ func EnumLits(start *ssa.BasicBlock, idx int, o TabOpts) ([]*LPath, bool) {
 					}
 				} else if fb, ok := foldCond(rc, ps); ok {
 					if fb != outcome {
+						continue
+					}
+				} else if alts, ok := boolEqAlts(rc, outcome, ps); ok {
+					// `if a == b` over two booleans: the branch is taken in two ways
+					for _, alt := range alts {
+						nl, good := o.Termer.altLits(alt, fr.lits, ps)
+						if !good || !satisfiable(append(append([]Lit(nil), nl...), o.Assume...)) {
+							continue
+						}
+						afr := fr
+						afr.lits = nl
+						altFrames = append(altFrames, afr)
+					}
+					if len(altFrames) == 0 {
 						continue
 					}
 				} else if l, ok := o.Termer.litOf(cond, outcome, ps); ok {
@@ -867,24 +992,39 @@ func EnumLits(start *ssa.BasicBlock, idx int, o TabOpts) ([]*LPath, bool) {
 					nfr.unknown = append(append([]string(nil), fr.unknown...), fmt.Sprintf("%s=%v", o.Termer.Term(cond, ps), outcome))
 				}
 			}
-			nps := ps.clone()
-			if visits == 1 || s.Dominates(b) {
-				// second arrival at a loop header through a back-edge: its phis (and those of blocks inside the
-				// loop that are revisited) stand for an arbitrary later iteration
-				if nps.Havoc == nil {
-					nps.Havoc = map[*ssa.BasicBlock]bool{}
-				}
-				nps.Havoc[s] = true
-				nps.Gen++
-				// a new iteration of s's loop: inner loops start over
-				for ib := range loopBody(s) {
-					if ib != s {
-						delete(nps.Visits, ib)
-						delete(nps.Havoc, ib)
+			if len(altFrames) == 0 {
+				altFrames = []frame{nfr}
+			}
+			for _, nfr := range altFrames {
+				nps := ps.clone()
+				if visits == 1 || s.Dominates(b) {
+					// second arrival at a loop header through a back-edge: its phis (and those of blocks inside the
+					// loop that are revisited) stand for an arbitrary later iteration
+					if nps.Havoc == nil {
+						nps.Havoc = map[*ssa.BasicBlock]bool{}
+					}
+					nps.Havoc[s] = true
+					nps.Gen++
+					if cvals != nil {
+						nv := make(map[ssa.Value]int64, len(ps.Vals)+len(cvals))
+						for k2, v2 := range ps.Vals {
+							nv[k2] = v2
+						}
+						for k2, v2 := range cvals {
+							nv[k2] = v2
+						}
+						nps.Vals = nv
+					}
+					// a new iteration of s's loop: inner loops start over
+					for ib := range loopBody(s) {
+						if ib != s {
+							delete(nps.Visits, ib)
+							delete(nps.Havoc, ib)
+						}
 					}
 				}
+				walk(s, 0, nps, nfr, true)
 			}
-			walk(s, 0, nps, nfr, true)
 		}
 	}
 	ps0 := &pathState{Cells: map[*ssa.Alloc]ssa.Value{}, Vals: o.Values}
@@ -896,6 +1036,222 @@ func EnumLits(start *ssa.BasicBlock, idx int, o TabOpts) ([]*LPath, bool) {
 	}
 	walk(start, idx, ps0, frame{}, true)
 	return out, !overflow
+}
+
+// boolAssign: a boolean value and the truth value an alternative gives it.
+type boolAssign struct {
+	v   ssa.Value
+	val bool
+}
+
+// boolEqAlts: cond is `a == b` or `a != b` over two booleans neither of which is a constant: the two ways in which it
+// has the given outcome (a true and b accordingly; a false and b accordingly).
+func boolEqAlts(cond ssa.Value, outcome bool, ps *pathState) ([][]boolAssign, bool) {
+	bo, ok := cond.(*ssa.BinOp)
+	if !ok || (bo.Op != token.EQL && bo.Op != token.NEQ) {
+		return nil, false
+	}
+	isBool := func(v ssa.Value) bool {
+		b, ok := v.Type().Underlying().(*types.Basic)
+		return ok && b.Kind() == types.Bool
+	}
+	x, y := ps.Resolve(bo.X), ps.Resolve(bo.Y)
+	if !isBool(x) || !isBool(y) {
+		return nil, false
+	}
+	if _, c := x.(*ssa.Const); c {
+		return nil, false
+	}
+	if _, c := y.(*ssa.Const); c {
+		return nil, false
+	}
+	same := (bo.Op == token.EQL) == outcome // a and b have the same truth value
+	return [][]boolAssign{
+		{{x, true}, {y, same}},
+		{{x, false}, {y, !same}},
+	}, true
+}
+
+// altLits: the literals of one alternative added to lits; false when the alternative is impossible on this path or a
+// part of it cannot be put as a literal.
+func (t *Termer) altLits(alt []boolAssign, lits []Lit, ps *pathState) ([]Lit, bool) {
+	nl := append([]Lit(nil), lits...)
+	for _, ba := range alt {
+		v := ps.Resolve(ba.v)
+		if cb, isC := constBool(v); isC {
+			if cb != ba.val {
+				return nil, false
+			}
+			continue
+		}
+		if fb, ok := foldCond(v, ps); ok {
+			if fb != ba.val {
+				return nil, false
+			}
+			continue
+		}
+		l, ok := t.litOf(ba.v, ba.val, ps)
+		if !ok {
+			return nil, false
+		}
+		l.PS = ps
+		nl = append(nl, l)
+	}
+	return nl, true
+}
+
+const maxConcreteIter = 12
+
+// concreteBackEdge: the values the phis of loop header h take when it is re-entered from pred on this path, when h has
+// phis, all of them integers, and each incoming value is a known number; nil otherwise.
+func concreteBackEdge(h, pred *ssa.BasicBlock, ps *pathState) map[ssa.Value]int64 {
+	k := -1
+	for i, pb := range h.Preds {
+		if pb == pred {
+			k = i
+		}
+	}
+	if k < 0 {
+		return nil
+	}
+	out := map[ssa.Value]int64{}
+	for _, in := range h.Instrs {
+		ph, ok := in.(*ssa.Phi)
+		if !ok {
+			break
+		}
+		if b, ok := ph.Type().Underlying().(*types.Basic); !ok || b.Info()&types.IsInteger == 0 {
+			return nil
+		}
+		n, ok := evalInt(ph.Edges[k], ps)
+		if !ok {
+			return nil
+		}
+		out[ph] = n
+	}
+	if len(out) == 0 {
+		return nil
+	}
+	// … and with them the loop test in the header is decided (the trip count is known): a counter that is a known
+	// number while its bound is not (`for i := 0; i < len(xs); i++`) stays "some later iteration"
+	iff, ok := h.Instrs[len(h.Instrs)-1].(*ssa.If)
+	if !ok {
+		return nil
+	}
+	tps := ps.clone()
+	nv := make(map[ssa.Value]int64, len(ps.Vals)+len(out))
+	for k2, v2 := range ps.Vals {
+		nv[k2] = v2
+	}
+	for k2, v2 := range out {
+		nv[k2] = v2
+	}
+	tps.Vals = nv
+	if tps.Havoc == nil {
+		tps.Havoc = map[*ssa.BasicBlock]bool{}
+	}
+	tps.Havoc[h] = true
+	if _, decided := foldCond(tps.Resolve(iff.Cond), tps); !decided {
+		return nil
+	}
+	return out
+}
+
+// literalElem: element idx of a local array literal (`[...]string{"a", "b"}`, also behind `[:]`) whose elements are
+// stored once, with constant indices, in the block that creates it.
+func literalElem(base ssa.Value, idx int64) (ssa.Value, bool) {
+	for i := 0; i < 4; i++ {
+		switch x := base.(type) {
+		case *ssa.UnOp: // the array value loaded from its cell
+			if x.Op != token.MUL {
+				return nil, false
+			}
+			base = x.X
+			continue
+		case *ssa.Slice:
+			if x.Low != nil || x.High != nil {
+				return nil, false
+			}
+			base = x.X
+			continue
+		}
+		break
+	}
+	// an element of a package-level list of string constants that only the initialiser writes
+	if g, isG := base.(*ssa.Global); isG && theProgram != nil {
+		if st := theProgram.strTable(g); st != nil {
+			if sv, ok := st.vals[idx]; ok && int64(len(st.vals)) == st.n {
+				return ssa.NewConst(constant.MakeString(sv), types.Typ[types.String]), true
+			}
+		}
+		return nil, false
+	}
+	al, ok := base.(*ssa.Alloc)
+	if !ok {
+		return nil, false
+	}
+	pt, ok := al.Type().Underlying().(*types.Pointer)
+	if !ok {
+		return nil, false
+	}
+	if _, ok := pt.Elem().Underlying().(*types.Array); !ok {
+		return nil, false
+	}
+	var found ssa.Value
+	for _, r := range *al.Referrers() {
+		ia, ok := r.(*ssa.IndexAddr)
+		if !ok {
+			switch r.(type) {
+			case *ssa.UnOp, *ssa.Slice, *ssa.DebugRef:
+				continue
+			}
+			return nil, false
+		}
+		k, isC := constInt(ia.Index)
+		for _, r2 := range *ia.Referrers() {
+			st, isSt := r2.(*ssa.Store)
+			if !isSt {
+				continue // an element read
+			}
+			if !isC || st.Addr != ssa.Value(ia) || st.Block() != al.Block() {
+				return nil, false
+			}
+			if k == idx {
+				if found != nil {
+					return nil, false
+				}
+				found = st.Val
+			}
+		}
+	}
+	return found, found != nil
+}
+
+// literalLen: the length of a local array literal, also behind `[:]`.
+func literalLen(v ssa.Value) (int64, bool) {
+	if sl, ok := v.(*ssa.Slice); ok && sl.Low == nil && sl.High == nil {
+		v = sl.X
+	} else if u, ok := v.(*ssa.UnOp); ok && u.Op == token.MUL {
+		v = u.X
+	}
+	if al, ok := v.(*ssa.Alloc); ok {
+		if pt, ok := al.Type().Underlying().(*types.Pointer); ok {
+			if arr, ok := pt.Elem().Underlying().(*types.Array); ok {
+				return arr.Len(), true
+			}
+		}
+	}
+	if g, ok := v.(*ssa.Global); ok {
+		if pt, ok := g.Type().Underlying().(*types.Pointer); ok {
+			if arr, ok := pt.Elem().Underlying().(*types.Array); ok {
+				return arr.Len(), true
+			}
+		}
+	}
+	if arr, ok := v.Type().Underlying().(*types.Array); ok {
+		return arr.Len(), true
+	}
+	return 0, false
 }
 
 // splittableBoolResult: the first result of r that is, on this path, a comparison (or its negation) rather than a
@@ -1037,6 +1393,19 @@ func evalIntD(v ssa.Value, ps *pathState, rec int) (int64, bool) {
 		case *ssa.ChangeType:
 			v = x.X
 			continue
+		case *ssa.Call:
+			if bi, ok := x.Call.Value.(*ssa.Builtin); ok && bi.Name() == "len" && len(x.Call.Args) == 1 {
+				return literalLen(ps.Resolve(x.Call.Args[0]))
+			}
+			return 0, false
+		case *ssa.UnOp:
+			// an element of a package-level constant table at a known index
+			if ct, idx, ok := theProgram.constTableLoad(x); ok {
+				if k, ok := evalIntD(idx, ps, rec+1); ok && k >= 0 && k < ct.n {
+					return ct.vals[k], true
+				}
+			}
+			return 0, false
 		case *ssa.BinOp:
 			a, ok1 := evalIntD(x.X, ps, rec+1)
 			b, ok2 := evalIntD(x.Y, ps, rec+1)
@@ -1104,6 +1473,30 @@ func foldCond(c ssa.Value, ps *pathState) (bool, bool) {
 		return false, false
 	}
 	return evalCmp(x, b.Op, y), true
+}
+
+// isZeroArrayLoad: a load of a local array variable that is never stored to (its zero value).
+func isZeroArrayLoad(v ssa.Value) bool {
+	u, ok := v.(*ssa.UnOp)
+	if !ok || u.Op != token.MUL {
+		return false
+	}
+	a, ok := u.X.(*ssa.Alloc)
+	if !ok {
+		return false
+	}
+	if _, isArr := a.Type().Underlying().(*types.Pointer).Elem().Underlying().(*types.Array); !isArr {
+		return false
+	}
+	for _, r := range *a.Referrers() {
+		switch x := r.(type) {
+		case *ssa.UnOp, *ssa.DebugRef:
+		default:
+			_ = x
+			return false // stored to, sliced, indexed or escaping
+		}
+	}
+	return true
 }
 
 // certainlyNonNilError: a load of a package-level error variable initialised once, or the result of errors.New /
